@@ -7,33 +7,23 @@ boundary safe.  The name must need no escaping (`NameOk`): the printer does not 
 namespace ESV.PosMark
 open ESV ESV.Lit ESV.Lex
 
-/-- characters a mark's name may consist of so that `'name'` is one STRING_LITERAL token denoting the name -/
-def nameCharOk (c : Char) : Bool := c ≠ SQ && c ≠ BS && c ≠ CR && c ≠ NL && c ≠ FF
+/-- names for which `'name'` (printed verbatim between single quotes) is exactly one STRING_LITERAL token: no single quote,
+no line break, and `lexSafe`: taking every backslash together with the character after it (as the token rule does), no
+backslash is left over at the end and none stands before a quote; no raw `\r` / `\f`.  Backslashes followed by an ordinary
+character, and doubled backslashes, are allowed. -/
+def NameOk (name : Str) : Bool := !name.contains SQ && !name.contains NL && lexSafe SQ name
 
-def NameOk (name : Str) : Bool := name.all nameCharOk
-
-theorem tokSingleBody_plain_run (name rest : Str) (n : Nat) (h : NameOk name = true) :
-    tokSingleBody SQ (name ++ SQ :: rest) n = some (n + name.length + 1) := by
-  induction name generalizing n with
-  | nil => unfold tokSingleBody; simp
-  | cons c cs ih =>
-    simp only [NameOk, List.all_cons, Bool.and_eq_true, nameCharOk, decide_eq_true_eq, ne_eq] at h
-    obtain ⟨⟨⟨⟨⟨h1, h2⟩, h3⟩, h4⟩, h5⟩, hr⟩ := h
-    simp only [List.cons_append]
-    unfold tokSingleBody
-    simp only [h1, h2, h3, h4, h5, if_false, Bool.or_self, decide_false, Bool.false_eq_true]
-    have := ih (n + 1) (by simpa [NameOk, nameCharOk] using hr)
-    rw [this]
-    simp; omega
+theorem nameOk_spec (name : Str) (h : NameOk name = true) : SQ ∉ name ∧ NL ∉ name ∧ lexSafe SQ name = true := by
+  simp only [NameOk, Bool.and_eq_true, Bool.not_eq_true', List.contains_eq_mem, decide_eq_false_iff_not] at h
+  exact ⟨h.1.1, h.1.2, h.2⟩
 
 def quoted (name : Str) : Str := [SQ] ++ name ++ [SQ]
 
 theorem quoted_single (name : Str) (h : NameOk name = true) : tokSingle (quoted name) = some (quoted name).length := by
-  have := tokSingleBody_plain_run name [] 1 h
-  simp only [quoted, List.cons_append, List.nil_append, tokSingle]
-  have hq : (decide (SQ = SQ) || decide (SQ = DQ)) = true := by decide
-  simp only [this]
-  simp; omega
+  obtain ⟨h1, h2, h3⟩ := nameOk_spec name h
+  have := tokSingle_enc SQ (Or.inl rfl) false name [] h3 (Or.inr h2)
+  rw [C04.enc_quote_free SQ name h1] at this
+  simpa [quoted] using this
 
 theorem classify_quoted (name : Str) (h : NameOk name = true) : classify (quoted name) = some .str1 := by
   have hs := quoted_single name h
@@ -51,8 +41,8 @@ theorem classify_quoted (name : Str) (h : NameOk name = true) : classify (quoted
     | nil => simp [quoted, tokMulti]
     | cons c cs =>
       have hc : c ≠ SQ := by
-        simp only [NameOk, List.all_cons, Bool.and_eq_true, nameCharOk, decide_eq_true_eq, ne_eq] at h
-        exact h.1.1.1.1.1
+        have := (nameOk_spec _ h).1
+        intro hc; subst hc; simp at this
       cases cs with
       | nil => simp [quoted, tokMulti, hc]
       | cons d ds => simp [quoted, tokMulti, hc]
